@@ -391,6 +391,7 @@ func runC12(c *run.Ctx, s *kit.Summary) {
 		}
 	}
 	ha.Diff(c.Driver, s)
+	renderMany(c, s, r)
 	reportPlumbing(c, s, r)
 }
 
